@@ -125,6 +125,27 @@ def rule_MP3(rep, prog, g):
         ts = [t for t in ex.transitions(fn, GF) if t.site in cxs]
         commits = [t for t in ts if not isinstance(t, trans.GiveUp)]
         gus = [t for t in ts if isinstance(t, trans.GiveUp)]
+        # the thread that publishes HAS_NOTIFS (and may fire at once on an empty group) is THE one that made the notification list non-empty - the same
+        # condition under which it took the group's reference just before; electing a second thread gives the single-consumer list two consumers
+        xch = [i for i in fn.all_insts() if i.op == "atomicrmw" and i.d["rmw"] == "xchg" and "dg_notify_tail" in prog.fields(i)]
+        for c_ in cxs:
+            cxx = paths.dom_ctx(fn, c_)
+            first = False
+            for x in xch:
+                v_ = cxx.value(["i", x.id])
+                if v_ == paths.NULL or v_ == ("c", 0) or ("i", x.id) in cxx.isnull:
+                    first = True
+                for u in fn.users(x):
+                    us = fn.users(u) if u.op in ("inttoptr", "bitcast") else [u]
+                    for t_ in us:
+                        if t_.op == "icmp" and t_.d["pred"] in ("eq", "ne") and any(o[0] == "n" or (o[0] == "c" and o[1] == 0) for o in t_.ops) \
+                                and cxx.truth.get(t_.id) == (t_.d["pred"] == "eq"):
+                            first = True
+            rep.require(rid, first and bool(xch), c_.loc, fn.name, "notify-cas-not-only-first-pusher:%s" % fn.name,
+                        "_dispatch_group_notify (in %s) reaches the HAS_NOTIFS compare-exchange at a point where the tail exchange was not established to have "
+                        "returned NULL: a notifier queued BEHIND another one also fires _dispatch_group_wake on an empty group - two consumers of a single-consumer "
+                        "list, an unpaired release, and a notification registered for the next generation submitted while the group is still entered" % fn.name,
+                        sample={"in": fn.name})
         ok = bool(commits) and all(t.sets(HN) and ord_has_release(t.order) for t in commits)
         rep.require(rid, ok, cxs[0].loc, fn.name, "notify-cas:%s" % fn.name,
                     "_dispatch_group_notify (in %s): the state CAS must OR HAS_NOTIFS with release on every commit path" % fn.name,
@@ -438,6 +459,10 @@ def run(rep, tier="quick", srcdir=None, only=None):
     if want("C07-FK"):
         from .sync_common import rule_futex_key
         rule_futex_key(rep, "C07", prog)
+    if want("C05-MP4"):
+        # notifications fire for the generation that completed: the wake works on a detached snapshot of the list (shared with C05)
+        from . import C05
+        C05.rule_MP4(rep, prog)
 
 
 MANIFEST = {
